@@ -53,6 +53,9 @@ func (fx *fixture) loweredThreshold() []*fcase {
 	}
 	tps := []uint64{1, 2, 3, 5, 10, 100, fx.T / 2}
 	tp := tps[r.C.Intn("lowered-T", len(tps))]
+	if tp >= fx.T {
+		tp = fx.T / 2 // "lowered" means below the protocol's size
+	}
 	qp := tp * 685 / 1000 // what the forger aims at; not part of the oracle
 	type plan struct {
 		idx     uint32
@@ -83,6 +86,17 @@ func (fx *fixture) loweredThreshold() []*fcase {
 			last := voters[len(voters)-1]
 			real -= uint64(w[fx.pos(last)])
 			voters = voters[:len(voters)-1]
+		}
+		if len(voters) == 0 {
+			// the proposer's own vote is listed below when no voter is left: it counts with its
+			// real weight, so an index at which the proposer alone is a legitimate quorum is
+			// not a forgery (found by the thorough tier: a whale proposer, declared size equal
+			// to the protocol's)
+			real = uint64(w[fx.pos(prop)])
+			if real >= fx.Q {
+				continue
+			}
+			voters = []*val{prop}
 		}
 		var claimed uint64
 		for _, v := range voters {
